@@ -7,9 +7,12 @@ NO_EXPORT_IMPORT = {"quick": {"VERIF_FAIL_EXCLUDE": "export-import"}, "thorough"
 EXPORT_IMPORT_ONLY_TF = {t: dict(EXPORT_IMPORT_ONLY[t], VERIF_AUTH_FOCUS="tokenfactory") for t in EXPORT_IMPORT_ONLY}
 PROPS = {
  "C12": {
-  "modules": ["OsmoVerif.Props.C12", "OsmoVerif.Props.C12Str"],
-  "min_theorems": 64,
-  "fingerprints": ["Osmomath.chop*", "Osmomath.incBasedOnRem*", "Osmomath.assertMaxBitLen", "Osmomath.BigDec_*", "Osmomath.NewBigDecFromStr"],
+  "modules": ["OsmoVerif.Props.C12", "OsmoVerif.Props.C12Str", "OsmoVerif.Props.C12Int"],
+  "min_theorems": 108,
+  "fingerprints": ["Osmomath.chop*", "Osmomath.incBasedOnRem*", "Osmomath.assertMaxBitLen", "Osmomath.BigDec_*", "Osmomath.NewBigDecFromStr",
+                   "Osmomath.BigInt_*", "Osmomath.NewBigInt*", "Osmomath.MinBigInt", "Osmomath.MaxBigInt", "Osmomath.newIntegerFromString",
+                   "Osmomath.unmarshalText", "Osmomath.NewBigDecWithPrec", "Osmomath.NewBigDecFromBigInt*", "Osmomath.NewBigDecFromIntWithPrec",
+                   "Osmomath.NewBigDecFromDecMulDec", "Osmomath.BigDecFromSDKInt", "Osmomath.DivIntByU64ToBigDec", "Osmomath.MinBigDec", "Osmomath.MaxBigDec"],
   "engines": [{"name": "num", "kind": "pure", "n": {"quick": 60000, "thorough": 600000}, "shards": {"quick": 4, "thorough": 16}}],
   "rule": "stratified operand pairs (magnitude class x sign x remainder/tie class) for every modelled BigDec/Dec method; "
           "aliasing / mutation discipline on LIVE objects for every BigDec and LegacyDec method of the table (harness/cmd/pure/numalias.go): one systematic sweep "
@@ -18,18 +21,29 @@ PROPS = {
           "operation is applied to the result, then to the operands, and the other side is read again); ...Mut methods update exactly the receiver, return it, leave a distinct "
           "argument alone and agree with the non-mutating twin on clones, also for x.opMut(x); alias chains of 3-6 mixed Mut / non-Mut calls over 2-4 shared variables are replayed "
           "by the value-semantic model (`num chain`) and an independent big.Rat reference; the special classes also pass through the value oracle; "
+          "INTEGER side (harness/cmd/pure/numint.go): the whole osmomath.BigInt type and the sdk Int (constructors, Add/Sub/Mul/Quo/Mod and Raw forms, Neg, Abs, Min/Max, "
+          "Int64/Uint64, comparisons, ToDec/ToLegacyDec, String/Marshal/MarshalTo/Size/JSON/amino round trips, the base-0 text decoders on canonical, exotic and malformed "
+          "text), BigDec<->integer operations (MulInt64, QuoInt64, TruncateInt64, RoundInt64, NewBigDecFrom...WithPrec, BigDecFromSDKInt, NewBigDecFromDecMulDec) and "
+          "DivIntByU64ToBigDec with every RoundingDirection incl. invalid ones; integer operand classes: 0, +-1, 2^k+{-1,0,1} for k around 63/64/255/256/511/512/1023/1024, "
+          "powers of ten, int64/uint64 extremes, exact bit lengths, values next to the bound; Mul pairs whose bit lengths sum to bound-1..bound+2 (one systematic sweep per "
+          "shard + random); Quo/Mod/QuoInt64 dividends q*m+r (r on / next to 0, m/2, m) of either sign with power-of-two and other divisors; "
           "a case is non-trivial when both operands are non-zero; distinct = distinct op lines",
-  "trusted_base": ["Go math/big (modelled by Int.tdiv/tmod)", "aliasing/mutation of operands is a heap fact: checked by the engine on the implementation, not by a theorem",
+  "trusted_base": ["Go math/big (modelled by Int.tdiv/tmod, Euclidean Mod by Int.emod, BitLen by Nat.log2, SetString(s, 0) by the scanner IntText.parseBase0 of Model/NumInt.lean)",
+                   "aliasing/mutation of operands is a heap fact: checked by the engine on the implementation, not by a theorem",
                    "Lean core String runtime (legacy String.splitOn, String.foldl, Nat.repr) as specified by core/Batteries lemmas (Batteries.Data.String.Lemmas get/next/atEnd/extract_of_valid)"],
   "assumptions": ["BigDec string round-trip is a theorem over the model's own String functions (Props/C12Str: fromStr (toStr a) = some a iff |a| < 2^maxBitLen, none otherwise = finding F2 for every wide value); "
                   "JSON is the same text in quotes and is decided by correspondence + oracle only; binary round-trip has a theorem",
                   "the model's fromStr covers the outputs of String() and their malformed neighbours (optional '-', digits, optional '.' + 1..36 digits), not the full NewBigDecFromStr grammar; "
                   "LegacyDec.String/NewDecFromStr (18 decimals) are not modelled, so have no theorem (reference codec is proved for every precision p > 0)",
-                  "LegacyDec lives in the module cache (cosmossdk.io/math, version pinned in Gen.Osmomath.sdkMathVersion)"],
+                  "LegacyDec and the sdk Int live in the module cache (cosmossdk.io/math, version pinned in Gen.Osmomath.sdkMathVersion)",
+                  "BigInt / Int JSON is the decimal text in quotes: decided by correspondence (inner text) + oracle only; Float64 conversions are not modelled"],
   "explanation": "60+ theorems: each BigDec/Dec arithmetic method of the model returns the uniquely determined value of its rounding spec "
                  "(IsTrunc/IsCeil/IsHalfEven) for all operands of either sign, overflow fails iff the rounded result exceeds the bit bound; "
                  "text codec: exact round-trip bound for all values, shape/length/injectivity of String(), sign handling, accepted language of the decoder "
-                 "(fromStr_eq_some_iff) and rejection of every malformed neighbour shape; model tied to the Go code by bit-exact differential run.",
+                 "(fromStr_eq_some_iff) and rejection of every malformed neighbour shape; integer side (Props/C12Int): BigInt Add/Sub/Mul return the exact result iff it "
+                 "fits 1024 bits (the cheap pre-check of Mul never rejects a representable product), Quo truncates, Mod is Euclidean, QuoInt/QuoInt64 truncate toward zero for "
+                 "either sign, MulInt exact iff it fits, DivIntByU64ToBigDec is ceiling / toward-zero / half-even-of-72 per mode for divisors below 2^63 (F70 above), "
+                 "BigInt text and binary round trips for every value, accepted and rejected text; model tied to the Go code by bit-exact differential run.",
  },
  "C13": {
   "modules": ["OsmoVerif.Props.C13", "OsmoVerif.Props.C13SigFig", "OsmoVerif.Props.C13Log", "OsmoVerif.Props.C13Exp2",
